@@ -228,7 +228,9 @@ func (c *Conn) Create(t TableSpec) error { return c.Exec(t.SQL()) }
 
 var baseTime = time.Date(2020, 1, 1, 0, 0, 0, 0, time.UTC)
 
-func tstr(sec int) string { return baseTime.Add(time.Duration(sec) * time.Second).Format("2006-01-02 15:04:05") }
+func tstr(sec int) string {
+	return baseTime.Add(time.Duration(sec) * time.Second).Format("2006-01-02 15:04:05")
+}
 
 func tnanos(sec int) int64 { return baseTime.Add(time.Duration(sec) * time.Second).UnixNano() }
 
